@@ -74,9 +74,11 @@ CLAIMED = {
             "C14_float_index_range / C14_float_index_roundtrip: for EVERY finite binary64 probability in [0,1) and 1 <= n < 2^53 the float computation floor(p / fl(1/n)) clamped lies in [0,n), and the bucket centre "
             "(i+0.5)*fl(1/n) maps back to i (n < 2^50). Hence at the float level: Int with linear sampling and any step always yields a lattice point min+i*step within [min,max] (C14_int_in_domain), every lattice value "
             "round-trips (C14_int_roundtrip), the enumerated values are exactly the lattice incl. max iff step | max-min (C14_int_values, C14_max_on_lattice); Choice and Boolean likewise. Exact-layer versions without "
-            "bounds. PARTIAL: Float hyperparameters and log/reverse_log sampling go through libm pow/log and are checked on the implementation only (domain, lattice enumeration, round trip on every enumerated value, "
-            "determinism of random_sample) with adversarial probabilities. Tie: HpFloat.v evaluated inside Coq on 0, 1-2^-53, k/n +- 1 ulp, denormals, compared bit for bit.",
-            "Trusted: Coq kernel/vm_compute; axioms of the standard library's real numbers used by Flocq (sig_forall_dec, sig_not_dec, functional_extensionality_dep, classic); CPython floats are IEEE binary64 RNE; libm not modelled.", "DESIGN.md section 6 C14"),
+            "bounds. C14_int_nostep_in_range / C14_float_in_range: the return expressions of Int.prob_to_value (no step) and Float.prob_to_value (all paths), re-read from the source by a fail-closed AST translator on every run "
+            "(gen/Gen_hp.v), are max(min_value, min(E, max_value)) and therefore lie in [min_value, max_value] whatever libm returned for E. PARTIAL: lattice membership and round trips of Float and log/reverse_log "
+            "sampling go through libm pow/log and are checked on the implementation only (exact range on sampled values incl. a sweep of ~4000 (min,max) pairs x samplings x steps at probabilities next to 0 and 1, lattice "
+            "enumeration, round trip on every enumerated value, determinism of random_sample). Tie: HpFloat.v evaluated inside Coq on 0, 1-2^-53, k/n +- 1 ulp, denormals, compared bit for bit; translator for the clamps.",
+            "Trusted: Coq kernel/vm_compute; axioms of the standard library's real numbers used by Flocq (sig_forall_dec, sig_not_dec, functional_extensionality_dep, classic); CPython floats are IEEE binary64 RNE; libm not modelled; translate_hp.py (Python ast -> HpIR expressions; unknown syntax becomes EUnknown, which no proof accepts).", "DESIGN.md section 6 C14"),
     "C08": ("Coq proof over Crash.v (write-level protocol + restart procedure) + crash injection at write k on the real code with model correspondence of every write and every rebuilt state",
             "C08_any_crash_point: for EVERY search (any oracle, any op sequence), a crash after ANY number of writes, and any number of further restart/search/crash generations, the restart either finds no tuner file "
             "(fresh search) or rebuilds a state satisfying the lifecycle invariant Inv with nothing handed out - so every trial has ended or is queued to run again, ids are 0..n-1, and every C01/C02/C03/C07/C11 theorem "
